@@ -21,3 +21,4 @@ for _t in U.SCHED_TYPES:
     _cache = _t._lt.cache
     TWINS[_t.__qualname__] = U.make_type(_t.__qualname__, cache=(None if type(_cache).__name__ == 'NullCache' else (U.JsonCache() if isinstance(_cache, U.JsonCache) else 'default')),
                                          max_parallel=_t._lt.max_parallel, module=__name__, run=_run_twin)
+
